@@ -992,3 +992,45 @@ package http2
 //@ ensures done: r0 ==> strm.bodyStream == nil
 //@ # ... and a response that was finished without a reset did carry it
 //@ ensures endsent: r0 && called((*serverConn).writeReset) == 0 && (old(strm.pendingEnd) || old(strm.bodyStream) != nil) ==> ended
+
+// ---- connection-level rules, errors, GOAWAY (RFC 7540 5.1.1, 5.4, 6.8) ----
+
+//@ func (*serverConn).checkFrameWithStream
+//@ props C08
+//@ requires args: sc != nil && fr != nil
+//@ pure
+//@ # client-initiated streams are odd; PING and PUSH_PROMISE never belong on a stream from a client
+//@ ensures iff: r0 == nil <==> (fr.stream % 2 == 1 && fr.kind != 6 && fr.kind != 5)
+//@ ensures code: r0 != nil ==> iserror(r0) && errcode(r0) == ProtocolError && errframe(r0) == FrameGoAway
+
+//@ func (*serverConn).writeGoAway
+//@ props C10
+//@ requires recv: scOK(sc)
+//@ modifies sc.closeRef, sc.state
+//@ opt noframe=true
+//@ # after a GOAWAY the connection is closing, and no stream above closeRef is promised
+//@ ensures closing: sc.state == 1
+//@ ensures ref: strm != 0 ==> sc.closeRef == sc.lastID
+//@ ensures noref: strm == 0 ==> sc.closeRef == old(sc.closeRef)
+
+//@ func (*serverConn).writeError
+//@ props C10 C09 C08
+//@ requires recv: scOK(sc) && err != nil
+//@ modifies sc.closeRef, sc.state, strm.state
+//@ opt noframe=true
+//@ # a connection error (GOAWAY-typed) closes the connection; a stream error only resets that stream
+//@ ensures conn: iserror(err) && errframe(err) == FrameGoAway ==> sc.state == 1 && called((*serverConn).writeGoAway) == 1
+//@ ensures strmerr: strm != nil && iserror(err) && errframe(err) == FrameResetStream ==>
+//@ |   called((*serverConn).writeReset) == 1 && called((*serverConn).writeGoAway) == 0 && sc.state == old(sc.state)
+//@ ensures closed: strm != nil ==> strm.state == 4
+//@ # without a stream to reset, every error (of the two kinds the constructors make) takes the connection down
+//@ ensures nostream: strm == nil && (!iserror(err) || errframe(err) == FrameGoAway || errframe(err) == FrameResetStream) ==>
+//@ |   called((*serverConn).writeGoAway) == 1 && sc.state == 1
+
+//@ func (*Streams).Search
+//@ props C08 C13
+//@ requires recv: strms != nil && forall(i, 0, len(*strms), (*strms)[i] != nil)
+//@ pure
+//@ loop 0: invariant none: forall(i, 0, rangeindex + 1, (*strms)[i].id != id)
+//@ ensures found: r0 != nil ==> r0.id == id && exists(i, 0, len(*strms), (*strms)[i] == r0)
+//@ ensures absent: r0 == nil ==> forall(i, 0, len(*strms), (*strms)[i].id != id)
